@@ -5,3 +5,4 @@ pub mod rtu;
 pub mod sessions;
 pub mod robust;
 pub mod tls;
+pub mod ffi;
